@@ -116,12 +116,15 @@ LEMMA AllocsGood ==
     ASSUME NEW S, NEW m \in Macs, NEW ak \in BOOLEAN, NEW hs, NEW gen \in BOOLEAN,
            Good(S), Of(S, m) = {}, NEW T \in Allocs(S, m, ak, hs, gen)
     PROVE  Good(T)
-  <1> DEFINE g(a) == IF gen THEN {GenName(a)} ELSE {}
-             A1 == UNION {Fresh(S, m, a, ak, hs \cup g(a)) : a \in FreeAddrs(S)}
-             A2 == UNION {Fresh(S \ On(S, a), m, a, ak, hs \cup g(a) \cup {l.host : l \in On(S, a)}) : a \in Recyclable(S)}
+  <1> DEFINE g(a, TT) == IF ~gen THEN {}
+                        ELSE IF \E o \in TT : o.host = GenName(a) THEN {AltName(a)} ELSE {GenName(a)}
+             A1 == UNION {Fresh(S, m, a, ak, hs \cup g(a, S)) : a \in FreeAddrs(S)}
+             A2 == UNION {Fresh(S \ On(S, a), m, a, ak, hs \cup g(a, S \ On(S, a)) \cup {l.host : l \in On(S, a)})
+                          : a \in Recyclable(S)}
   <1>0a T \in A1 \cup A2 BY DEF Allocs
-  <1>0b T \in A1 => \E a \in FreeAddrs(S) : T \in Fresh(S, m, a, ak, hs \cup g(a)) OBVIOUS
-  <1>0c T \in A2 => \E a \in Recyclable(S) : T \in Fresh(S \ On(S, a), m, a, ak, hs \cup g(a) \cup {l.host : l \in On(S, a)})
+  <1>0b T \in A1 => \E a \in FreeAddrs(S) : T \in Fresh(S, m, a, ak, hs \cup g(a, S)) OBVIOUS
+  <1>0c T \in A2 => \E a \in Recyclable(S) :
+                       T \in Fresh(S \ On(S, a), m, a, ak, hs \cup g(a, S \ On(S, a)) \cup {l.host : l \in On(S, a)})
     OBVIOUS
   <1> HIDE DEF g, A1, A2
   <1>0 \/ \E a \in FreeAddrs(S) : \E names : T \in Fresh(S, m, a, ak, names)
@@ -190,14 +193,15 @@ LEMMA DeclineGood ==
   <1>2 CASE mine # {}
     <2> DEFINE l == CHOOSE x \in mine : TRUE
                S1 == S \ {l}
+               keep == {""} \cup ({l.host} \ {GenName(a)})
     <2>1 l \in S /\ l.mac = m BY <1>2 DEF Of
     <2>2 Good(S1) BY Sub
     <2>3 Of(S1, m) = {} BY <2>1 DEF Of, Good
     <2>4 \/ o = Outc(S1, AnyR)
-         \/ \E T \in Allocs(S1, m, TRUE, {"", l.host}, TRUE) : o = Outc(T, AnyR)
-         \/ \E T \in Allocs(S1, m, FALSE, {"", l.host}, TRUE) : o = Outc(T, AnyR)
+         \/ \E T \in Allocs(S1, m, TRUE, keep, TRUE) : o = Outc(T, AnyR)
+         \/ \E T \in Allocs(S1, m, FALSE, keep, TRUE) : o = Outc(T, AnyR)
       BY <1>2 DEF DeclineOut
-    <2> HIDE DEF l, S1, mine
+    <2> HIDE DEF l, S1, mine, keep
     <2> QED BY <2>2, <2>3, <2>4, AllocsGood DEF Outc
   <1> QED BY <1>1, <1>2
 
